@@ -36,8 +36,34 @@ def gen_world(r, nmod=None, ncls=None):
             inc = inc + ["Enumerable"]          # a configured module
         w.classes.append({"name": "Cls%d" % i, "parent": parent, "includes": inc, "extends": ext, "inst": inst,
                           "ext_first": r.random() < 0.5,
+                          # how the private methods are made private: a section, `private def m`, `private :m`
+                          "vis_style": r.choice(["sections", "sections", "private_def", "private_sym"]),
                           "static": [w.fresh("s") for _ in range(r.choice([0, 1, 1, 2]))]})
     return w
+
+
+def render_instance_methods(c):
+    """the instance methods of a class body; the private ones by a section, by `private def m` or by `private :m`
+    (in the last two styles the definitions that follow stay public)"""
+    lines = []
+    style = c.get("vis_style", "sections")
+    privs = [n for n, v in c["inst"] if v == "private"]
+    if style == "private_def":
+        for n in privs:
+            lines += ["  private def %s" % n, "    1", "  end"]
+    elif style == "private_sym" and privs:
+        for n in privs:
+            lines += ["  def %s" % n, "    1", "  end"]
+        lines.append("  private " + ", ".join(":" + n for n in privs))
+    for vis in VIS:
+        ms = [n for n, v in c["inst"] if v == vis]
+        if not ms or (vis == "private" and style != "sections"):
+            continue
+        if vis != "public":
+            lines.append("  " + vis)
+        for n in ms:
+            lines += ["  def %s" % n, "    1", "  end"]
+    return lines
 
 
 def render_world(w, query_class=None, query_kind=None, query_text=None):
@@ -61,14 +87,7 @@ def render_world(w, query_class=None, query_kind=None, query_text=None):
             lines.append("  %s %s" % (kw, x))
         for n in c["static"]:
             lines += ["  def self.%s" % n, "    1", "  end"]
-        for vis in VIS:
-            ms = [n for n, v in c["inst"] if v == vis]
-            if not ms:
-                continue
-            if vis != "public":
-                lines.append("  " + vis)
-            for n in ms:
-                lines += ["  def %s" % n, "    1", "  end"]
+        lines += render_instance_methods(c)
         if query_class == c["name"] and query_kind:
             lines.append("  public")
             lines.append("  def %sqmeth" % ("self." if query_kind == "static_body" else ""))
